@@ -16,7 +16,10 @@
   * `rtosc_message_length(msg, -1)` builds the ring `{{msg, SIZE_MAX},{NULL,0}}`: `deref`
     is then `msg[pos]` for every `unsigned pos`, there is no bound the code itself checks.
     `messageLengthU` is `ringLength` of Length.lean with that `deref`, i.e. with every read
-    checked against the block.
+    checked against the block.  It mirrors the code after fixes C07-bundle-len / C07-blob-len /
+    C07-empty-string-size: with `total = SIZE_MAX` the new guards `pos > total`,
+    `advance > total-pos`, `i > total-pos` can never fire (all operands are 32-bit values), so
+    they do not appear; the string case scans from the first byte of the string.
   * A destination buffer is a `Bytes` of exactly `len` bytes; stores go through `BW.store`,
     which records in `oob` whether an index `≥ len` was written (the store is dropped).
   * `unsigned pos` / `uint32_t` arithmetic wraps (`u32`); pointers and `size_t` do not
@@ -83,7 +86,7 @@ def lenLoopU (m : Bytes) (aligned : Nat) : Nat → Bytes → Nat → Rd Nat
     else if t = 109 ∨ t = 114 ∨ t = 99 ∨ t = 102 ∨ t = 105 then
       lenLoopU m aligned tp ts (u32 (pos + 4))
     else if t = 83 ∨ t = 115 then
-      match scanNulU m (fuelU m) (u32 (pos + 1)) with        -- while(deref(++pos,ring));
+      match scanNulU m (fuelU m) pos with                    -- while(deref(pos,ring)) ++pos;
       | .ok p => lenLoopU m aligned tp ts (u32 (p + (4 - usub p aligned % 4)))
       | .oob => .oob
       | .hang => .hang
